@@ -6,5 +6,7 @@ CONSTANTS MaxVer = 3
           TornHeader = FALSE
           SyncBeforeFlip = TRUE
           PickNewer = TRUE
+          SavepointTwoPhase = FALSE
+          SavepointPreFlush = TRUE
 INVARIANTS TypeOK RecoveryOk PrimaryServable AckedDurable
 CHECK_DEADLOCK FALSE
